@@ -135,6 +135,8 @@ func main() {
 		}
 		n, ok := headers.VerifC09Rewritten[c.file]
 		switch {
+		case ok && n < 0:
+			run.Fatal("overlay: %s ranges over the map returned by keyValParse in a form checks/c09/overlay.py cannot put under the control of VerifOrder; update overlay.py (the expected form is `for k, v := range kvs {`)", c.file)
 		case ok && n > 0:
 			// the hook must really be live
 			_, _, _, ord := parseRecorded(c, liveProbe[c.name], 0)
